@@ -217,8 +217,16 @@ fn run<R: ModeTag, const B: Word>(c: &ArithCase, _ctx: &Ctx) -> Out {
     }
     // the FBig operators built on the context methods (both operands at precision p)
     if matches!(op, "add" | "sub" | "mul" | "div") {
-        let fa: FBig<R, B> = c.a.fbig(c.p as usize);
-        let fb: FBig<R, B> = c.b.fbig(c.p as usize);
+        // one operand may carry a smaller precision (its own digit count): the operators work at
+        // the larger of the two, like Context::max
+        let lower = c.b.exp.rem_euclid(3);
+        let pa = if lower == 1 { (c.a.digits(base) as usize).max(1).min(c.p as usize) } else { c.p as usize };
+        let pb = if lower == 2 { (c.b.digits(base) as usize).max(1).min(c.p as usize) } else { c.p as usize };
+        if pa != pb {
+            out.label("operator: operands of different precision");
+        }
+        let fa: FBig<R, B> = c.a.fbig(pa);
+        let fb: FBig<R, B> = c.b.fbig(pb);
         let form = c.a.exp.rem_euclid(4);
         let r = catch(|| match (op, form) {
             ("add", 0) => fa.clone() + fb.clone(),
@@ -243,6 +251,9 @@ fn run<R: ModeTag, const B: Word>(c: &ArithCase, _ctx: &Ctx) -> Out {
             Ok(f) => match Sci::from_repr(f.repr()) {
                 None => out.fail(format!("FBig operator {op}: infinite result")),
                 Some(val) => {
+                    if f.precision() != c.p as usize {
+                        out.fail(format!("FBig operator {op} (form {form}): operands of precision {pa} and {pb} give a result of precision {} instead of {}", f.precision(), c.p));
+                    }
                     // operators do not expose the flag: judge the value with the flag-independent clauses
                     let flag_free = Res { sig: val.n.magnitude().clone(), val, flag: None, precision: f.precision() };
                     results.push((format!("FBig operator {op}"), flag_free));
